@@ -262,6 +262,16 @@ def gen_contract_vcs(q, carve_outs=()):
         raise Demoted(f"function {q} not found in the repository source")
     fnode, mod, cls = repo.funcs[q]
     eng.module = mod
+    # names that the verifier reads as third-party predicates must still denote them in the function's module
+    if any(isinstance(n_, ast.Name) and n_.id == "_is_valid_uri" for n_ in ast.walk(fnode)):
+        mtree = repo.modules.get(mod)
+        imported = any(isinstance(n_, ast.ImportFrom) and n_.module == "rdflib.term"
+                       and any(a_.name == "_is_valid_uri" and a_.asname is None for a_ in n_.names) for n_ in getattr(mtree, "body", []))
+        redefined = any((isinstance(n_, (ast.FunctionDef, ast.ClassDef)) and n_.name == "_is_valid_uri")
+                        or (isinstance(n_, ast.Assign) and any(isinstance(t_, ast.Name) and t_.id == "_is_valid_uri" for t_ in n_.targets))
+                        for n_ in getattr(mtree, "body", []))
+        if not imported or redefined:
+            raise Demoted("_is_valid_uri is no longer rdflib.term._is_valid_uri in module " + mod)
     cnode = loader.CONTRACT_AST[ckey]
     if ckey != q:
         eng.contracts = dict(eng.contracts)
